@@ -6,22 +6,26 @@ ID = "C15"
 HARNESSES = [dict(name="cgnat", pkg="./internal/cgnat/", test="TestVerifC15", timeout=900,
                   files=[("internal/cgnat/zz_verif_c15_test.go", "harness/C15/zz_verif_c15_test.go")])]
 MODEL_NEEDS_IMPL = True
-# The model has one flag per defect that was found (R restore unvalidated, A reverse Add duplicate, D duplicate outside
-# address, S synced rollback, V inside VRF 0, X pools sharing an outside address, L late add completion).  All seven
-# are fixed in /repo (285c7b2 7d1d0b3 3b1c45d 0cedd79 53e73c2 1fd8c60 8d8ac1d), so only the repaired model is tried:
-# a regression to any old defect is a VIOLATION.  The driver still understands "def:<letters>" (used by the _refuted
-# theorems' replays and when triaging by hand).
-VARIANTS = ["repaired"]
+# The model has one flag per defect that was found.  Fixed in /repo (a regression is a VIOLATION, no variant tried):
+# R restore unvalidated 285c7b2, A reverse Add duplicate 7d1d0b3, D duplicate outside address 3b1c45d, S synced rollback
+# 0cedd79, V inside VRF 0 53e73c2, X pools sharing an outside address 1fd8c60, L late add completion 8d8ac1d.
+# Open (audit round 2):
+#   C cgnat.Config.Validate accepts a reversed / unparseable port-range and a derived block size of 0
+#   G a release ignores the mapping the degraded restore branch preserved for a session that was not activated again
+# One defect variant is enough: a case shows C only if its configuration is one Validate should reject (and then the
+# repaired model ends the case at "invalid"), G only if the configuration is valid.
+VARIANTS = ["repaired", "def:CG"]
 DEFECT_NAMES = {"R": "restore-unvalidated", "A": "reverse-add-duplicate", "D": "duplicate-outside-address",
                 "S": "synced-rollback-keeps-reverse-entries", "V": "inside-vrf-zero",
-                "X": "pool-outside-overlap", "L": "late-add-completion"}
+                "X": "pool-outside-overlap", "L": "late-add-completion",
+                "C": "config-port-geometry-unchecked", "G": "preserved-mapping-not-released"}
 RULE = ("Three kinds of history. mp: two pools on one PoolManager (outside addresses disjoint, overlapping or equal), cgnat.Config.Validate first, then <=40 pool calls addressed to either pool, dumps with the cross-pool overlap monitor.  comp subscribers come in VRF twins (same inside address in VRF 0, 1, 2) and a share of the activations leaves the dataplane add in flight (L) and completes it later (K ok/failed) in any order relative to the other events.  pool: <=70 calls of AllocateBlock/GetOrAllocate/ReleaseBlocks/RestoreMapping/"
         "RestoreMappingIfAbsent on one PoolManager over <=7 subscribers (two VRFs); comp: <=45 events driven through "
         "the real Component (handleSessionActivate with and without an HA-synced record, handleSessionRelease, "
         "restoreFromOpDB with one persisted mapping in the session-present and the degraded branch), each with a fault "
         "pattern for the southbound fake: dataplane add ok/failed, every dataplane delete ok/failed and completing "
         "at once or later (pending callbacks fired newest-first by a C event), bulk reprogram ok / per-mapping error "
-        "/ transport error.  After EVERY comp event the reverse index is swept.  Geometries: 1-4 public addresses given as literals and /30 /31 prefixes (sometimes duplicated), "
+        "/ transport error.  After EVERY comp event the reverse index is swept.  Configurations go through cgnat.Config.Validate first in every case kind (a rejected one ends the case); they include a reversed port range, a bound above 65535 and a block size derived as 0.  One case per run sweeps all 65536 ports of a default-range pool.  Geometries: 1-4 public addresses given as literals and /30 /31 prefixes (sometimes duplicated), "
         "0-2 exclusions, port ranges of 77..64512 ports with block sizes 4..1024 giving 0,4,8,16,64,65,125,126,128 "
         "blocks per address (one word, word boundary, two words), block size from subscriber-ratio, defaults for "
         "every unset field, limit 1-4, paired/arbitrary pooling.  About a third of the histories are 'clean' (no restores, no duplicate addresses, one live session per subscriber), so that the contract proper is compared exactly even while recorded defects are unfixed.  Restore arguments come from named classes: free "
@@ -51,16 +55,22 @@ GEOMS = [  # (range, bs, ratio, weight)
     ("1024-1100", 16, 0, 3), ("1024-2047", 8, 0, 4), ("1000-1999", 8, 0, 4), ("2000-2259", 4, 0, 4),
     ("def", 512, 0, 3), ("def", 0, 0, 2), ("0-65535", 1024, 0, 3), ("1024-1151", 256, 0, 1),
     ("60000-65535", 512, 0, 2), ("0-127", 16, 0, 2), ("65400-65535", 16, 0, 2), ("1024-1151", 0, 200, 1),
+    # configurations Config.Validate must reject: reversed range (block size kept large so that the wrapped 2^32-port
+    # bitmap stays small), a bound above 65535 (parsePortRange falls back to the default), block size 0 from the ratio
+    ("2000-1000", 40000, 0, 0.2), ("1151-1024", 65535, 0, 0.2), ("5000-4999", 50000, 0, 0.2),
+    ("1024-70000", 512, 0, 0.4), ("0-127", 0, 129, 0.4),
 ]
 
 
 def geom_params(g):
     rng_, bs, ratio = g[0], g[1], g[2]
     ps, pe = (1024, 65535) if rng_ == "def" else tuple(int(x) for x in rng_.split("-"))
-    usable = pe - ps + 1
+    if ps > 65535 or pe > 65535:
+        ps, pe = 1024, 65535
+    usable = (pe - ps + 1) % (1 << 32)
     ebs = bs if bs > 0 else ((usable // ratio) % 65536 if ratio > 0 else 512)
     total = usable // ebs if ebs > 0 else 0
-    return ps, pe, ebs, total
+    return ps, pe, ebs, min(total, 70)
 
 
 def gen_cfg(rng, allow_dup=True):
@@ -132,6 +142,8 @@ def restore_arg(rng, gp):
 
 def sweep_ops(gp):
     ps, pe, bs = gp["ps"], gp["pe"], max(gp["bs"], 1)
+    if pe < ps:
+        ps, pe = pe, ps
     if pe - ps <= 1100:
         return ["w:%d:%d" % (max(0, ps - 20), min(65535, pe + 20))]
     return ["w:%d:%d" % (max(0, ps - 5), min(65535, ps + 3 * bs + 5)),
@@ -241,8 +253,8 @@ def gen_comp_case(rng, nmax):
             sid = new_sid() if rng.random() < 0.8 or not live else rng.choice(list(live))
             bulk = rng.choice([0, 0, 0, 1, 2]) if kind == "P" else 0
             ev("%s:%d:%d:%d:%d:%d%s" % (kind, sid, mk, ip, s, e, (":%d" % bulk) if kind == "P" else ""))
-            if kind == "P" and bulk == 0:
-                live.setdefault(sid, mk)
+            if (kind == "P" and bulk == 0) or (kind == "D" and rng.random() < 0.7):
+                live.setdefault(sid, mk)      # a preserved (degraded) session is released later like any other
             if rng.random() < 0.3:       # re-entered restore of the same record
                 k2 = rng.choice("PD")
                 ev("%s:%d:%d:%d:%d:%d%s" % (k2, sid, mk, ip, s, e, ":0" if k2 == "P" else ""))
@@ -337,6 +349,10 @@ def gen_cases(rng, tier, budget):
             ops.append("a:%d" % k)
         ops += ["d", "r:64", "r:65", "r:%d" % n, "a:300", "a:301", "a:302", "a:303", "d"]
         cases.append("pool bs=%d ratio=0 range=%s max=1 pooling=1 out=%d excl=- | " % (bs, rg, BASE + 1) + " ".join(ops))
+    # every port of the default range swept (64512 ports, 126 blocks per address, interior blocks included)
+    cases.append("comp bs=512 ratio=0 range=def max=4 pooling=2 out=%d,%d excl=- | " % (BASE + 1, BASE + 2) +
+                 " ".join("A:%d:%d:1" % (k, k) for k in range(2, 40)) + " w:0:65535 " +
+                 " ".join("X:%d:%d" % (k, k) for k in range(5, 30, 3)) + " w:0:65535 d")
     # configuration corner: block size derived as 0 (ConfigurePool divides by it)
     cases.append("pool bs=0 ratio=1 range=0-65535 max=1 pooling=1 out=%d excl=- | a:1 d" % (BASE + 1))
     for _ in range(npool):
@@ -457,10 +473,27 @@ def classify1(case, impl, model):
     return "G", "output length differs: impl=%d ops model=%d ops; impl tail=%s" % (len(io), len(mo), io[-1][:200])
 
 
+def config_invalid(case):
+    """does the case contain a pool configuration the repaired Config.Validate rejects?"""
+    head = case.split(" | ", 1)[0]
+    for part in head.split(" || "):
+        g = dict(t.split("=", 1) for t in part.split() if "=" in t)
+        if "range" not in g:
+            continue
+        rg = g["range"]
+        ps, pe = (1024, 65535) if rg == "def" else tuple(int(x) for x in rg.split("-"))
+        if ps > pe or pe > 65535:
+            return True
+        bs, ratio = int(g["bs"]), int(g["ratio"])
+        ebs = bs if bs > 0 else (((pe - ps + 1) // ratio) % 65536 if ratio > 0 else 512)
+        if ebs == 0:
+            return True
+    return False
+
+
 def signature(case, impl, models):
-    for v in sorted(VARIANTS[1:], key=len):
-        if models.get(v) == impl:
-            return "+".join(DEFECT_NAMES[c] for c in v[4:])
+    if models.get("def:CG") == impl:
+        return DEFECT_NAMES["C"] if config_invalid(case) else DEFECT_NAMES["G"]
     return None
 
 
